@@ -14,6 +14,7 @@ real `_hop` values) and must coincide; a dynamic monitor reports any NoPC task t
 This module also hosts the infrastructure shared with c09.py and c35.py.
 """
 import os, sys, io, json, random, asyncio, contextlib, logging, collections, subprocess, time, struct
+from asyncio import Future      # return annotation of generated user coroutines (typing.get_type_hints resolves it here)
 
 from lib.core import zlit, natlit, COQ, COQFLAGS, PYNP, VERIF, REPO, BuildLock, sh
 
@@ -64,7 +65,7 @@ L = 16            # SecInt bit length used by generated programs
 BOUND = 1 << 13   # generated values stay below this magnitude
 
 
-def gen_spec(rng, m, n_ops, with_mod=False, with_barrier=False, with_exc=False):
+def gen_spec(rng, m, n_ops, with_mod=False, with_barrier=False, with_exc=False, with_ucoro=False):
     """Random secure-integer program as a JSON-able op list, together with its Python-int oracle."""
     ops, vals, futs, results = [], [], [], []
     pending_f = []
@@ -85,6 +86,8 @@ def gen_spec(rng, m, n_ops, with_mod=False, with_barrier=False, with_exc=False):
         kinds += ['barrier', 'barrier']
     if with_exc:
         kinds += ['exc', 'stop']
+    if with_ucoro:
+        kinds += ['ucoro'] * 5
     tagno = 0
     while len(ops) < n_ops:
         k = rng.choice(kinds)
@@ -142,6 +145,18 @@ def gen_spec(rng, m, n_ops, with_mod=False, with_barrier=False, with_exc=False):
             ops.append(['barrier'])
         elif k in ('exc', 'stop'):
             ops.append([k, rng.randrange(2)])
+        elif k == 'ucoro':
+            # user coroutine (@mpc.coroutine) of one of the declaration forms; all of them open x inside (network round)
+            form = rng.choice(['type', 'none', 'annot', 'annot_none', 'raise'])
+            i = pick()
+            if form == 'type':
+                if abs(vals[i] * vals[i]) >= BOUND:
+                    continue
+                newvar(vals[i] * vals[i])
+            elif form == 'annot':
+                futs.append(vals[i])
+                pending_f.append(len(futs) - 1)
+            ops.append(['ucoro', form, i])
     for f in pending_f:
         ops.append(['await', f])
         results.append(futs[f])
@@ -157,9 +172,47 @@ def make_prog(spec, mon=None, barrier_log=None):
     async def prog(mpc, mods, pid):
         secint = mpc.SecInt(L)
         xs, fs, res = [], [], []
-        for op in ops:
+        seen = []
+
+        @mpc.coroutine
+        async def u_type(x):                 # await returnType(type)
+            await mpc.returnType(type(x))
+            await mpc.output(x)
+            return x * x
+
+        @mpc.coroutine
+        async def u_none(x):                 # await returnType(None): no return value
+            await mpc.returnType(None)
+            seen.append(int(await mpc.output(x)))
+
+        @mpc.coroutine
+        async def u_annot(x) -> Future:      # return annotation
+            return int(await mpc.output(x))
+
+        @mpc.coroutine
+        async def u_annot_none(x) -> None:   # return annotation, no return value
+            seen.append(int(await mpc.output(x)))
+
+        @mpc.coroutine
+        async def u_raise(x):                # dies with an exception after its first await
+            await mpc.returnType(None)
+            await mpc.output(x)
+            raise ValueError('expected-by-program')
+
+        for opno, op in enumerate(ops):
+            if opno and mon is not None:
+                mon.after_statement(pid, opno - 1, ops[opno - 1][0], mpc)
             k = op[0]
-            if k == 'input':
+            if k == 'ucoro':
+                f_ = {'type': u_type, 'none': u_none, 'annot': u_annot, 'annot_none': u_annot_none, 'raise': u_raise}[op[1]]
+                r = f_(xs[op[2]])
+                if op[1] == 'type':
+                    xs.append(r)
+                elif op[1] == 'annot':
+                    fs.append(r)
+                elif r is not None:
+                    res.append('coroutine without return value returned %r' % (r,))
+            elif k == 'input':
                 xs.extend(mpc.input(secint(op[1][pid])))
             elif k == 'input1':
                 xs.append(mpc.input(secint(op[2] if pid == op[1] else 0), senders=op[1]))
@@ -190,7 +243,8 @@ def make_prog(spec, mon=None, barrier_log=None):
             elif k == 'transfer_all':
                 fs.append(mpc.transfer('%s.%d' % (op[1], pid)))
             elif k == 'await':
-                res.append(await fs[op[1]])
+                r = await fs[op[1]]
+                res.append(int(r) if isinstance(r, int) else r)
             elif k == 'gather':
                 await mpc.gather(xs[op[1]])
             elif k == 'output':
@@ -232,6 +286,9 @@ class Monitor:
         self.base = [id(mpc._program_counter) for mpc in sim.mpcs]
         self.nopc_touch = [[] for _ in range(m)]   # (qualname of the NoPC coroutine, kind)
         self.tasks = [[] for _ in range(m)]
+        self.reconciled = [0] * m                  # calls of asyncoro._reconcile (done-callbacks of coroutine tasks)
+        self.stmt_bad = [[] for _ in range(m)]     # top-level statement boundaries with wrong depth / level
+        self.stmt_checked = 0
         for i in range(m):
             self.pin[i][self.base[i]] = sim.mpcs[i]._program_counter
             self._install(i)
@@ -250,6 +307,12 @@ class Monitor:
                 super().__init__(coro, loop=loop, **kw)
                 tasks.append(self_)
         aco.Task = MTask
+        orec = aco._reconcile
+
+        def reconcile(decl, task, _o=orec, _i=i):
+            self.reconciled[_i] += 1
+            return _o(decl, task)
+        aco._reconcile = reconcile        # the done-callback `lambda t: _reconcile(decl, t)` looks the name up at call time
 
         def check(kind):
             try:
@@ -294,6 +357,27 @@ class Monitor:
             check('recv')
             return orecv(self_, peer)
         cls._prss_uci, cls._send_message, cls._receive_message = uci, send, recv
+
+    def after_statement(self, pid, opno, opname, mpc):
+        """At a statement boundary of the main program: the ambient counter is the base counter at depth 0, and
+        _pc_level = coroutine tasks created - tasks whose completion callback has run."""
+        self.stmt_checked += 1
+        live = len(self.tasks[pid]) - self.reconciled[pid]
+        if id(mpc._program_counter) != self.base[pid] or mpc._program_counter[1] != 0 or mpc._pc_level != live:
+            if len(self.stmt_bad[pid]) < 5:
+                self.stmt_bad[pid].append({'after_op': [opno, opname], 'depth': mpc._program_counter[1],
+                                           'base_counter_in_place': id(mpc._program_counter) == self.base[pid],
+                                           '_pc_level': mpc._pc_level, 'tasks_created_minus_completed': live})
+
+    def expected_failures(self, pid):
+        """Coroutine tasks that ended with the exception the program raises on purpose (retrieving it also keeps asyncio
+        from logging 'exception was never retrieved')."""
+        n = 0
+        for t in self.tasks[pid]:
+            if t.done() and not t.cancelled() and t.exception() is not None:
+                if 'expected-by-program' in repr(t.exception()):
+                    n += 1
+        return n
 
     def pending_tasks(self, pid):
         return [getattr(t.get_coro(), '__qualname__', '?') for t in self.tasks[pid] if not t.done()]
@@ -445,7 +529,7 @@ def nvars(spec):
     for o in spec['ops']:
         if o[0] == 'input':
             n += len(o[1])
-        elif o[0] in ('input1', 'mul', 'add', 'sub', 'lt', 'ge', 'eq', 'mulc', 'mod', 'modfix', 'call'):
+        elif o[0] in ('input1', 'mul', 'add', 'sub', 'lt', 'ge', 'eq', 'mulc', 'mod', 'modfix', 'call') or o[:2] == ['ucoro', 'type']:
             n += 1
     return n
 
@@ -486,7 +570,7 @@ class Session:
 
         def handler(loop_, context, _o=orig_h):
             exc = context.get('exception')
-            if not getattr(self, 'closing', False) and not isinstance(exc, asyncio.CancelledError):
+            if not getattr(self, 'closing', False) and not isinstance(exc, asyncio.CancelledError) and 'expected-by-program' not in repr(exc):
                 self.loop_exc.append('%s: %r' % (context.get('message', ''), exc))
             if _o is not None:
                 _o(loop_, context)
